@@ -73,6 +73,13 @@ func registerMisc(e *Engine) {
 		in.now = in.ctx.BVAdd(in.clockNow(), a[0].(*smt.Term))
 		return TupleV{}
 	}
+	// vhClockConcrete(): the clock reads a fixed instant from here on (for code
+	// that only formats the time into output the property does not look at;
+	// calendar arithmetic on a symbolic instant is division-heavy)
+	harnessIntrinsics["vhClockConcrete"] = func(in *Interp, fn *ssa.Function, a []Value) Value {
+		in.now = in.ctx.BV(1600000000_000000000, 64)
+		return TupleV{}
+	}
 	harnessIntrinsics["vhClockAdvance"] = func(in *Interp, fn *ssa.Function, a []Value) Value {
 		in.now = in.ctx.BVAdd(in.clockNow(), a[0].(*smt.Term))
 		return TupleV{}
